@@ -208,7 +208,7 @@ Lemma rep_nil_teq : forall p T0, Rep (lookup T0) [] (tab p) -> teq_tab p T0.
 Proof. intros p T0 R x. apply (proj1 (rep_nil _ _) R). Qed.
 
 Theorem shell_restored : forall pl sh,
-  is_single_builtin pl = false ->
+  runs_in_shell pl = false ->
   (capture_fails pl = true -> length (p_stages pl) = 1 \/ v_capfail v = true) ->
   let r := run_pipeline v fail_at openable pl sh in
   teq_tab (res_shell r) (tab sh) /\
